@@ -410,10 +410,22 @@ static bool build(const Case& c, Built& b) {
   if (c.at & AT_IBT) f.set_indirect_branch_protection();
   if (c.at & AT_NOREDZONE) f.reset_red_zone();
   for (int g = 0; g < 4; g++) f.add_dirty_regs(RegGroup(g), c.dirty[g]);
-  f.set_local_stack_size(c.ls);
-  if (c.la) f.set_local_stack_alignment(c.la);
-  f.set_call_stack_size(c.cs);
-  if (c.ca) f.set_call_stack_alignment(c.ca);
+  // the order of the setters and set_* vs update_* (equivalent on a fresh frame) must not matter: the Compiler records
+  // the call-stack alignment first and the local alignment last, hand-written code usually the other way round
+  {
+    uint32_t ord = uint32_t(c.ls * 31u + c.cs * 17u + c.la * 7u + c.ca * 3u + uint32_t(c.at) + uint32_t(c.fp));
+    bool call_first = (ord & 1) != 0, upd = (ord & 2) != 0;
+    auto set_local = [&]() {
+      f.set_local_stack_size(c.ls);
+      if (c.la) { if (upd) f.update_local_stack_alignment(c.la); else f.set_local_stack_alignment(c.la); }
+      else if (ord & 4) f.set_local_stack_alignment(f.local_stack_alignment());   // re-stating the current value is a no-op
+    };
+    auto set_call = [&]() {
+      if (upd) f.update_call_stack_size(c.cs); else f.set_call_stack_size(c.cs);
+      if (c.ca) { if (upd) f.update_call_stack_alignment(c.ca); else f.set_call_stack_alignment(c.ca); }
+    };
+    if (call_first) { set_call(); set_local(); } else { set_local(); set_call(); }
+  }
   if (c.fp) f.set_preserved_fp();
   if (c.sa >= 0) f.set_sa_reg_id(uint32_t(c.sa));
   e = f.finalize();
